@@ -326,6 +326,45 @@ type AATLoopkup10 struct {
 	Values     []uint16 `arrayCount:"FirstUint16"`
 }
 
+// parseLookup10Values reads the [count] values of a lookup format 10, stored
+// on [unitSize] bytes each (1, 2 or 4, as accepted by Harfbuzz), big endian.
+func parseLookup10Values(src []byte, unitSize, count int) ([]uint32, error) {
+	if count < 0 {
+		count = 0
+	}
+	switch unitSize {
+	case 1:
+		if L := len(src); L < count {
+			return nil, fmt.Errorf("EOF: expected length: %d, got %d", count, L)
+		}
+		out := make([]uint32, 0, count) // allocation guarded by the previous check
+		for _, b := range src[:count] {
+			out = append(out, uint32(b))
+		}
+		return out, nil
+	case 2:
+		if L := len(src); L < 2*count {
+			return nil, fmt.Errorf("EOF: expected length: %d, got %d", 2*count, L)
+		}
+		out := make([]uint32, 0, count) // allocation guarded by the previous check
+		for i := 0; i < count; i++ {
+			out = append(out, uint32(binary.BigEndian.Uint16(src[2*i:])))
+		}
+		return out, nil
+	case 4:
+		if L := len(src); L < 4*count {
+			return nil, fmt.Errorf("EOF: expected length: %d, got %d", 4*count, L)
+		}
+		out := make([]uint32, 0, count) // allocation guarded by the previous check
+		for i := 0; i < count; i++ {
+			out = append(out, binary.BigEndian.Uint32(src[4*i:]))
+		}
+		return out, nil
+	default:
+		return nil, fmt.Errorf("invalid unit size for AAT lookup format 10: %d", unitSize)
+	}
+}
+
 // extended versions
 
 // AATLookupExt is the same as AATLookup, but class values are uint32
